@@ -285,6 +285,8 @@ def _check(ctx, mod, replay_shard):
     for k in sorted(counters):
         if k.startswith(("calls:", "checks:")):
             print("  monitor %-40s %d" % (k, counters[k]))
+    if counters.get("monitor_errors"):
+        print("  WARNING: %d monitor error(s) (faults of the harness, recorded in the evidence; the affected evaluations were not judged)" % counters["monitor_errors"])
     for wp in worker_problems[:5]:
         print("  worker problem: shard %(shard)s interp %(interp)s status %(status)s %(label)s" % wp)
         if wp["stderr"]:
